@@ -13,6 +13,7 @@ type Design struct {
 	Errors   []*ErrDef  `json:"errors,omitempty"`   // API level errors
 	APIHTTP  []*ErrResp `json:"api_http_errors,omitempty"`
 	Services []*Service `json:"services"`
+	Meta     [][]string `json:"meta,omitempty"` // API level metadata: key, values...
 	// Raw lists deliberately misplaced / dangling DSL calls (malformed stream, C12).
 	Raw []*RawCall `json:"raw,omitempty"`
 }
@@ -116,6 +117,7 @@ type Service struct {
 	NoSecurity bool       `json:"no_security,omitempty"`
 	Methods    []*Method  `json:"methods"`
 	GRPC       bool       `json:"grpc,omitempty"`
+	Meta       [][]string `json:"meta,omitempty"`
 }
 
 // Method is one service method.
@@ -131,6 +133,7 @@ type Method struct {
 	Creds map[string]string `json:"creds,omitempty"`
 	HTTP  *HTTPMap          `json:"http,omitempty"`
 	GRPC  *GRPCMap          `json:"grpc,omitempty"`
+	Meta  [][]string        `json:"meta,omitempty"`
 }
 
 // Mapped is "attribute[:wire name]".
